@@ -51,8 +51,26 @@ Definition id_body (start : aexp) (runs : bool) : aexp :=
          ALook (if runs then name_boundary else fun r => negb (name_continues1 r))].
 Definition ealpha_start : aexp := AAlts [R n_ALPHA; L "@"; L "_"].
 
-Definition ctl_names (m : N) : list string :=
-  if bit m d_cborseq then filter (fun s => negb (String.eqb s "cborseq")) registered_controls else registered_controls.
+(* the order of the alternatives of control_name in cddl.pest; an ordered choice takes the FIRST name that is a
+   prefix of the text (so "cborseq" is never taken, and no token boundary is required after the name) *)
+Definition crate_control_order : list string := [
+  "size"; "bits"; "regexp"; "pcre"; "iregexp"; "cbor"; "cborseq"; "within"; "and"; "lt"; "le"; "gt"; "ge"; "eq"; "ne";
+  "default"; "cat"; "det"; "plus"; "abnfb"; "abnf"; "feature"; "b64u-sloppy"; "b64c-sloppy"; "b64u"; "b64c";
+  "hexuc"; "hexlc"; "hex"; "base10"; "printf"; "json"; "join"; "b32"; "h32"; "b45"; "bitfield" ]%string.
+Fixpoint is_prefix (s r : list N) : bool :=
+  match s, r with
+  | [], _ => true
+  | c :: s', d :: r' => (c =? d) && is_prefix s' r'
+  | _, [] => false
+  end.
+Fixpoint first_prefix (names : list (list N)) (r : list N) : list N :=
+  match names with
+  | [] => []
+  | n :: t => if is_prefix n r then n else first_prefix t r
+  end.
+Definition crate_ctlname : aexp :=
+  let names := map s2n crate_control_order in
+  AAlts (map (fun n => ASeq (ALook (fun r => leqb (first_prefix names r) n)) (AStrX n)) names).
 
 (* tag syntax of cddl.pest:  "#" DIGIT ("." tag_value)? ("(" S type S ")")?  |  "#" ("(" S type S ")")?
    ws = with the implicit skips, general = for every digit (otherwise the RFC forms) *)
@@ -70,6 +88,7 @@ Definition tag_forms (ws general : bool) : list aexp :=
      ASeqs [L "#"; s; par]].
 
 Definition variant (m : N) : cfg :=
+  if m =? 0 then abnf_spec else
   let g0 := abnf_spec in
   (* identifiers *)
   let runs := negb (bit m d_id_runs) in
@@ -77,15 +96,19 @@ Definition variant (m : N) : cfg :=
   let g2 := if bit m d_dollar then
               override n_typename [AAlt (ASeqs [L "$"; R n_idns]) (R n_idns)]
               (override n_groupname [AAlt (ASeqs [L "$$"; R n_idns]) (R n_idns)]
-              (override n_bareword [R n_idns]
+              (override n_bareword [R n_idns;
+                                    (* member_key's third alternative, typename generic_args?, is reached by "$" names *)
+                                    ASeqs [L "$"; if bit m d_implicit_ws then S_ else AEps; R n_idns;
+                                           if bit m d_implicit_ws then AOpt (ASeqs [S_; R n_genericarg]) else AOpt (R n_genericarg)]]
               (override n_genericparm [ASeqs [L "<"; S_; R n_idns; S_; AStar (ASeqs [L ","; S_; R n_idns; S_]); L ">"]] g1)))
             else g1 in
   (* control operators *)
   let g3 := override n_ctlop [ASeqs [L "."; R n_ctlname]] g2
-            ++ [(n_ctlname, ASeqs [AAlts (map X (ctl_names m)); if bit m d_cborseq then AEps else ALook name_boundary])] in
+            ++ [(n_ctlname, if bit m d_cborseq then crate_ctlname
+                            else ASeqs [AAlts (map X registered_controls); ALook name_boundary])] in
   let extra_t2 :=
         (if bit m d_implicit_ws then
-           [ASeqs [R n_typename; S_; R n_genericarg];
+           [ASeqs [R n_notbytes; R n_typename; S_; R n_genericarg];
             ASeqs [L "~"; S_; R n_typename; S_; R n_genericarg];
             ASeqs [L "&"; S_; R n_groupname; S_; R n_genericarg]]
            ++ tag_forms true (bit m d_tag_forms)
@@ -105,7 +128,7 @@ Definition variant (m : N) : cfg :=
                         S_; L "="; S_; R n_grpent]] g5
               ++ [(n_occ3, AAlts [L "?"; L "+"; ASeqs [L "*"; AOpt (R n_uint)]]);
                   (n_grpent0, AAlts [ASeqs [R n_occ3; S_; np; AOpt (ASeqs [R n_memberkey; S_]); R n_type];
-                                     ASeqs [R n_occ3; S_; np; R n_groupname; AOpt (R n_genericarg)];
+                                     ASeqs [R n_occ3; S_; np; R n_notbytes; R n_groupname; AOpt (R n_genericarg)];
                                      (if bit m d_paren_entry
                                       then ASeqs [R n_occ3; S_; L "("; S_; R n_type; S_; L ")"; S_; AOpt (ASeqs [L "^"; S_]); L "=>"; S_; R n_type]
                                       else AFail);
@@ -114,6 +137,7 @@ Definition variant (m : N) : cfg :=
             else g5 in
   (* byte strings *)
   let bsq := if bit m d_bsqual_case then AAlts [X "h"; X "b64"] else R n_bsqual in
+  let g6 := if bit m d_bsqual_case then override n_notbytes [ALook (fun r => negb (bytes_prefix false r))] g6 else g6 in
   let g7 := if bit m d_bytes_raw || bit m d_bsqual_case then
               override n_bytes
                 [ASeqs [AOpt bsq; AChr 39; AStar (if bit m d_bytes_raw then R n_anyq else R n_BCHAR); AChr 39];
@@ -144,7 +168,7 @@ Definition variant (m : N) : cfg :=
                       (n_groupname, ASeqs [L "$$"; S_; R n_idns]);
                       (n_rule, ASeqs [R n_typename; S_; R n_genericparm; S_; R n_assignt; S_; R n_type]);
                       (n_rule, ASeqs [R n_groupname; S_; R n_genericparm; S_; (if bit m d_group_rule then L "//=" else R n_assigng); S_; R n_grpent]);
-                      (n_grpent, ASeqs [AOpt (ASeqs [R n_occur; S_]); R n_groupname; S_; R n_genericarg]);
+                      (n_grpent, ASeqs [AOpt (ASeqs [R n_occur; S_]); R n_notbytes; R n_groupname; S_; R n_genericarg]);
                       (n_ctlop, ASeqs [L "."; S_; R n_ctlname])]
                   ++ (if bit m d_group_rule
                       then [(n_rule, ASeqs [R n_groupname; S_; R n_genericparm; S_; L "="; S_; R n_grpent0]);
@@ -162,10 +186,10 @@ Definition variant (m : N) : cfg :=
                let not_paren := ALook (fun r => negb (starts (N.eqb 40) r)) in
                override n_grpent
                  ([ASeqs [occ; not_paren; AOpt (ASeqs [R n_memberkey; S_]); R n_type];
-                   ASeqs [occ; not_paren; R n_groupname; AOpt (R n_genericarg)];
+                   ASeqs [occ; not_paren; R n_notbytes; R n_groupname; AOpt (R n_genericarg)];
                    ASeqs [occ; L "("; S_; R n_group; S_; L ")"];
                    ASeqs [occ; L "("; S_; R n_type; S_; L ")"; S_; AOpt (ASeqs [L "^"; S_]); L "=>"; S_; R n_type]]
-                  ++ (if bit m d_implicit_ws then [ASeqs [occ; not_paren; R n_groupname; S_; R n_genericarg]] else [])) g11
+                  ++ (if bit m d_implicit_ws then [ASeqs [occ; not_paren; R n_notbytes; R n_groupname; S_; R n_genericarg]] else [])) g11
              else g11 in
   let g12 := if bit m d_escapes then
                g11 ++ [(n_SESC, ASeqs [AChr 92; AChr 117; ARepN 4 (R n_HEXDIG)]);
